@@ -49,14 +49,37 @@ Definition pin_del (d : jdialog) (t : pin_tab) : pin_tab := filter (fun x => neg
 Definition pin_set (d : jdialog) (b : bytes) (t : pin_tab) : pin_tab := (d, b) :: pin_del d t.
 Definition is_sub_state (n : bytes) : bool := equal_fold n (s2b "subscription-state").
 
-(* reason codes: 1 an in-dialog request addressed to the service went to another backend *)
-Fixpoint j04_run (pc : proxy_case) (st : jstate) (pins : pin_tab) (evs : list event)
+(* the rotation, as far as the observations determine it: the listener and the backend that received the last
+   load-balanced request.  None = unknown (start, membership change, an input the judge does not read, a request
+   that produced no output): the next load-balanced request is then accepted wherever it goes and re-synchronises. *)
+Definition rot := option (nat * bytes).
+Fixpoint succ_of (l : list bytes) (first : option bytes) (x : bytes) : option bytes :=
+  match l with
+  | [] => None
+  | a :: r => if beq a x then (match r with b :: _ => Some b | [] => first end) else succ_of r first x
+  end.
+(* is [l] where the rotation must send the next unpinned request? *)
+Definition rot_ok (backends : list bytes) (li : nat) (last : rot) (l : bytes) : bool :=
+  match last with
+  | Some (li', p) => if Nat.eqb li li' then
+                       match succ_of backends (hd_error backends) p with Some n => beq n l | None => true end
+                     else true
+  | None => true
+  end.
+
+(* reason codes: 1 an in-dialog request addressed to the service went to another backend than the one that answered
+                 2 a request of no live pinned dialog (never bound, dissolved by an answered BYE or a terminating
+                   NOTIFY) was not load-balanced: it did not go to the rotation's next backend *)
+Fixpoint j04_run (pc : proxy_case) (st : jstate) (pins : pin_tab) (last : rot) (evs : list event)
          (obs : list (list (bytes * bytes) * list nat)) : option (nat * nat) :=
   match evs, obs with
   | ev :: er, (outs, closed) :: or_ =>
-      let next (p : pin_tab) := j04_run pc (js_step st ev outs) p er or_ in
+      let next_r (p : pin_tab) (r : rot) := j04_run pc (js_step st ev outs) p r er or_ in
+      let next (p : pin_tab) := next_r p last in
+      let skip (p : pin_tab) := next_r p None in
       match ev with
-      | EvBackendRemove li a => next (filter (fun x => negb (beq (snd x) (s2b "udp:" ++ a))) pins)
+      | EvBackendRemove li a => skip (filter (fun x => negb (beq (snd x) (s2b "udp:" ++ a))) pins)
+      | EvBackendAdd _ _ => skip pins
       | _ =>
           match j_input st ev with
           | Some i =>
@@ -78,32 +101,51 @@ Fixpoint j04_run (pc : proxy_case) (st : jstate) (pins : pin_tab) (evs : list ev
                             | [(l, _)] => if mem_bytes l backends then next (pin_set d l pins) else next pins
                             | _ => next pins
                             end
+                          else if (beq meth (s2b "INVITE") || beq meth (s2b "BYE"))%bool then
+                            (* not from a backend address: the proxy may still attribute it through the client transaction
+                               of its top Via; what it decides is not derivable from here: the dialog's pin is unknown *)
+                            next (pin_set d (s2b "?") pins)
                           else next pins
                       | _, _ => next pins
                       end
                     else
-                      match j_dialog m, msgs_of outs with
-                      | Some d, [(l, _)] =>
+                      (* a request: to a backend (pinned or load-balanced), elsewhere (the rotation is not involved), or nowhere *)
+                      let balanced (l : bytes) (p : pin_tab) :=
+                        if rot_ok backends (ji_li i) last l then next_r p (Some (ji_li i, l)) else Some (js_event st, 2%nat) in
+                      match msgs_of outs with
+                      | [(l, _)] =>
                           if mem_bytes l backends then
-                            match pin_find d pins with
-                            | Some b =>
-                                if mem_bytes b backends then
-                                  if beq l b then
-                                    (* NOTIFY ... Subscription-State: terminated dissolves the pin (terminated;reason=: don't care) *)
-                                    match fields (jm_start m), j_first is_sub_state (jm_headers m) with
-                                    | meth :: _, Some ss =>
-                                        if (beq meth (s2b "NOTIFY") && has_prefix (s2b "terminated") ss)%bool then next (pin_del d pins) else next pins
-                                    | _, _ => next pins
-                                    end
-                                  else Some (js_event st, 1%nat)
-                                else next (pin_del d pins)
-                            | None => next pins
+                            match j_dialog m with
+                            | Some d =>
+                                match pin_find d pins with
+                                | Some b =>
+                                    if mem_bytes b backends then
+                                      if beq l b then
+                                        (* NOTIFY ... Subscription-State: terminated dissolves the pin (terminated;reason=: don't care) *)
+                                        match fields (jm_start m), j_first is_sub_state (jm_headers m) with
+                                        | meth :: _, Some ss =>
+                                            if beq meth (s2b "NOTIFY") then
+                                              if beq ss (s2b "terminated") then next (pin_del d pins)
+                                              else if has_prefix (s2b "terminated") ss then next (pin_set d (s2b "?") pins)   (* don't care *)
+                                              else next pins
+                                            else next pins
+                                        | _, _ => next pins
+                                        end
+                                      else Some (js_event st, 1%nat)
+                                    else
+                                      (* the pin is unknown ("?"), or the backend that answered is gone: pinned or load-balanced,
+                                         either is accepted, and where the cursor stands afterwards is not known *)
+                                      skip pins
+                                | None => balanced l pins
+                                end
+                            | None => balanced l pins
                             end
                           else next pins
-                      | _, _ => next pins
+                      | [] => skip pins          (* e.g. an oversized datagram: the cursor moved, nothing was seen *)
+                      | _ => skip pins
                       end
-                  else next pins
-              | None => next pins
+                  else skip pins
+              | None => skip pins
               end
           | None => next pins
           end
@@ -226,7 +268,7 @@ Definition judge_proxy_hist (which : nat) (args : list bytes) : list bytes :=
       match run_dec (d_rep d_obs_event (List.length (pc_events pc))) obs with
       | Some o =>
           verdict (match which with
-                   | O => j04_run pc (js_init (pc_cfg pc)) [] (pc_events pc) o
+                   | O => j04_run pc (js_init (pc_cfg pc)) [] None (pc_events pc) o
                    | _ => j12_run pc (js_init (pc_cfg pc)) [] [] (pc_events pc) o
                    end)
       | None => [s2b "decode-error"]
